@@ -4,6 +4,7 @@ import NibabelModel.Lemmas.C03_EcatMain
 import NibabelModel.Lemmas.C03_Minc
 import NibabelModel.Lemmas.C03_Parrec
 import NibabelModel.Lemmas.C03_Afni
+import NibabelModel.Lemmas.C03_EcatRows
 import NibabelModel.Generated.C03Parrec
 import NibabelModel.Props.C06
 /-! Props/C03 — array proxies: scaling applied pointwise; partial reads equal slicing.
@@ -313,6 +314,70 @@ theorem ecat_frames_orig_reversed_counterexample :
       .ok ([1, 1, 1, 3], [some 0, some 1, some 2]) ∧
     npIndex [.ellipsis, .slice ⟨none, none, some (-1)⟩] [1, 1, 1, 3] .F = .ok ([1, 1, 1, 3], [2, 1, 0]) := by
   decide
+
+/-! ### ECAT: frames located through the matrix list, each voxel scaled with the factor of ITS frame -/
+
+/-- `get_frame_order`: the rows it returns are real matrix-list rows and their (effective) matrix ids
+    ascend — frame `i` of the image is the row with the `i`-th smallest id, whatever the order of the
+    directory entries in the file. -/
+theorem ecat_frame_order_sorted (ids : List Int) :
+    (frameOrder ids).Pairwise (fun r1 r2 => (effIds ids).getD r1 0 ≤ (effIds ids).getD r2 0) ∧
+    ∀ r ∈ frameOrder ids, r < ids.length := frameOrder_sorted ids
+
+example : frameOrder [16842755, 16842753, 16842756, 16842754] = [1, 3, 0, 2] := by decide
+
+/-- FRAME LOOKUP AND PER-FRAME SCALING.  With frames read through ANY frame→row mapping `rowOf`
+    (`frame_mapping[i][0]`; in particular `get_frame_order` of a matrix list whose ids do not ascend),
+    for every basic index on which NumPy indexing of the stacked `(x, y, z, T)` array succeeds, output
+    element `k` — whose source is stacked element `q = src[k]`, i.e. voxel `q % V` of frame `q / V` —
+    shows FILE element `rowElem rowOf V q`: the same voxel position (`% V`) of the volume stored in row
+    `rowOf (q / V)`, and therefore carries the `scale_factor` of sub-header `rowOf (q / V)`: the factor
+    of ITS OWN frame, for integer and slice indices on the frame axis alike.  The whole array
+    (`__array__`) is the same function of `q`, so `proxy[idx] = np.asarray(proxy)[idx]` also at the
+    level of file rows and scale factors. -/
+theorem ecat_frames_by_row (rowOf : Nat → Nat) (shape3 : List Nat) (T : Nat) (idx : List IdxItem)
+    (r : List Nat × List Nat) (hv : ∀ s, IdxItem.slice s ∈ idx → s.Valid)
+    (hnp : npIndex idx (shape3 ++ [T]) .F = .ok r) :
+    ecatGetitemRows rowOf shape3 T idx = .ok (r.1, r.2.map (fun q => some (rowElem rowOf shape3.prod q))) ∧
+    ecatArrayRows rowOf shape3 T = (shape3 ++ [T], (List.range (shape3.prod * T)).map (rowElem rowOf shape3.prod)) ∧
+    ∀ q ∈ r.2, rowElem rowOf shape3.prod q / shape3.prod = rowOf (q / shape3.prod) ∧
+      rowElem rowOf shape3.prod q % shape3.prod = q % shape3.prod := by
+  refine ⟨?_, ?_, ?_⟩
+  · unfold npIndex at hnp
+    cases hc : canonicalSlicers idx (shape3 ++ [T]) with
+    | error e => simp [hc, bind, Except.bind] at hnp
+    | ok items =>
+        simp only [hc, bind, Except.bind, orient] at hnp
+        cases hs : itemsSels items (shape3 ++ [T]) with
+        | error e => simp [hs] at hnp
+        | ok sels =>
+            simp only [hs, pure, Except.pure, Except.ok.injEq] at hnp
+            subst hnp
+            exact ecat_rows_sels rowOf shape3 T idx items sels hc hv hs
+  · simp only [ecatArrayRows, Prod.mk.injEq, true_and]
+    rw [← range_flatMap shape3.prod T, List.map_flatMap]
+    congr 1
+    funext i
+    rw [List.map_map]
+    apply List.map_congr_left
+    intro e he
+    simp only [Function.comp, frameElem]
+    rw [rowElem_frame rowOf _ _ _ (by simpa using he)]
+  · intro q hq
+    have hlt := npIndex_lt idx (shape3 ++ [T]) r hv hnp q hq
+    have hV : 0 < shape3.prod := by
+      rcases Nat.eq_zero_or_pos shape3.prod with h0 | h0
+      · simp [h0] at hlt
+      · exact h0
+    simp only [rowElem]
+    constructor
+    · rw [Nat.add_mul_div_left _ _ hV, Nat.div_eq_of_lt (Nat.mod_lt _ hV), Nat.zero_add]
+    · rw [Nat.add_mul_mod_self_left, Nat.mod_mod]
+
+example : ecatGetitemRows (fun i => (frameOrder [16842755, 16842753, 16842754]).getD i 0) [2, 1, 1] 3
+      [.ellipsis, .int (-1), .newaxis] = .ok ([2, 1, 1, 1], [some 0, some 1]) ∧
+    ecatGetitemRows (fun i => (frameOrder [16842755, 16842753, 16842754]).getD i 0) [2, 1, 1] 3
+      [.int 1, .ellipsis, .slice ⟨none, none, some (-1)⟩] = .ok ([1, 1, 3], [some 1, some 5, some 3]) := by decide
 
 /-! ### generic `ArrayProxy`, unconditional (C06 discharged) -/
 
